@@ -32,7 +32,7 @@ def gen_type(r, depth, opts, top=True):
         dts = NUMERIC if not opts.get("layout_exotic_dtypes") else NUMERIC + ["complex128", "datetime64"]
         return ["num", r.choice(dts)]
     if k == "str":
-        return ["str" if r.random() < 0.7 else "bytes"]
+        return ["str" if r.random() < 0.7 or opts.get("layout_no_bytes") else "bytes"]
     if k == "list":
         return ["list", gen_type(r, depth + 1, opts, False)]
     if k == "reglist":
